@@ -24,7 +24,7 @@ const TEXTS: &[&str] = &[
 fn gen_src(rng: &mut Rng) -> (String, Vec<(usize, usize)>) {
     let mut s = String::new();
     let mut runs = vec![];
-    let segs = rng.range(1, 9);
+    let segs = if rng.chance(1, 3) { rng.range(9, 18) } else { rng.range(1, 9) };
     // a small set of lengths per source makes equal-length pairs (= spans) frequent
     let palette: Vec<usize> = (0..rng.range(1, 3)).map(|_| if rng.chance(1, 8) { rng.range(4, 6) } else { rng.range(1, 3) }).collect();
     let mut last_was_run = false;
@@ -130,6 +130,47 @@ fn real(md: &MarkdownIt, s: &str, calls: &[CallSpec], out: &mut Out) -> String {
     if items.is_empty() { "-".into() } else { items.join(";") }
 }
 
+/// the call sequence the inline tokenizer itself would produce on `s`: left to right, the rule
+/// invoked for real at every backtick the loop stands on (also inside a failed run); at up to two
+/// points a silent sweep to the end of the line first (a link label look-ahead); optionally a
+/// nested real pass over a prefix range with its own, smaller `pos_max` (a link label's contents)
+fn tokenizer_calls(md: &MarkdownIt, s: &str, rng: &mut Rng) -> Vec<CallSpec> {
+    let mut env = markdown_it::common::ErasedSet::new();
+    let mut state = InlineState::new(s.to_owned(), vec![(0, 0)], md, &mut env, Node::default());
+    let len = s.len();
+    let bnd = boundaries(s);
+    let la: Vec<usize> = (0..rng.below(3)).map(|_| *rng.pick(&bnd)).collect();
+    let nested: Option<(usize, usize)> = if rng.chance(1, 3) {
+        let a = *rng.pick(&bnd); let b = *rng.pick(&bnd);
+        if a < b { Some((a, b)) } else { None }
+    } else { None };
+    let mut calls: Vec<CallSpec> = vec![];
+    let step = |state: &mut InlineState, calls: &mut Vec<CallSpec>, pos: usize, pm: usize, silent: bool| -> usize {
+        let ch = s[pos..].chars().next().unwrap();
+        if ch != '`' { return ch.len_utf8(); }
+        state.pos = pos; state.pos_max = pm;
+        calls.push(CallSpec { pos, pos_max: pm, prev: false, silent });
+        match guarded(|| CodePairScanner::<'`', false>::run(state, silent)) { Ok(Some(l)) => l.max(1), _ => 1 }
+    };
+    let mut pos = 0;
+    while pos < len && calls.len() < 40 {
+        if la.contains(&pos) {
+            let mut q = pos;
+            while q < len && calls.len() < 40 { q += step(&mut state, &mut calls, q, len, true); }
+        }
+        if let Some((a, b)) = nested {
+            if pos == a {
+                let mut q = a;
+                while q < b && calls.len() < 40 { q += step(&mut state, &mut calls, q, b, false); }
+                pos = b.max(q);
+                continue;
+            }
+        }
+        pos += step(&mut state, &mut calls, pos, len, false);
+    }
+    calls
+}
+
 pub fn run(n: usize, rng: &mut Rng, out: &mut Out) {
     let mut md = MarkdownIt::new();
     backticks::add(&mut md);
@@ -148,7 +189,8 @@ pub fn run(n: usize, rng: &mut Rng, out: &mut Out) {
     }
     for _ in 0..n {
         let (s, runs) = gen_src(rng);
-        let calls = gen_calls(rng, &s, &runs, out);
+        let calls = if rng.chance(1, 3) { out.stats.count("seq-tokenizer-like"); tokenizer_calls(&md, &s, rng) } else { gen_calls(rng, &s, &runs, out) };
+        if calls.is_empty() { continue; }
         emit(&md, &s, &calls, out);
     }
 }
